@@ -23,6 +23,21 @@ COOKIE_PARTS = ["sid=abc", "a=\"q\"", "b= sp", "a=1", "a=2", "tok=x,y", "tok=a b
 QUERIES = ["", "", "", "a=b", "q=1&p=2", "x=%2F&y", "a=b?c=d", "k=v%20w", "redirect=/x?y", "a"]
 UP_HEADERS = ["X-C13-A", "X-C13-B", "X-C13-C", "x-c13-d", "X-C13-Long-Name"]
 UP_COOKIES = ["c13u-a", "c13u-b", "c13u-c"]
+# response configurations (`respond` of serve.decision and serve.proxy; Envoy uses the one of the decision service):
+# the codes of the error classes are pairwise different, defaults included, and none of them is a 2xx
+RESPONDS = [
+    {"verbose": False, "codes": {}},
+    {"verbose": False, "codes": {}},
+    {"verbose": False, "codes": {}},
+    {"verbose": True, "codes": {}},
+    {"verbose": False, "codes": {"argument": 422, "authentication": 407, "authorization": 404, "communication": 504,
+                                 "internal": 503, "norule": 410}},
+    {"verbose": True, "codes": {"accepted": 202, "argument": 412, "authentication": 403, "authorization": 401,
+                                "communication": 500, "internal": 502, "norule": 400}},
+    {"verbose": False, "codes": {"authorization": 418}},
+    {"verbose": False, "codes": {"authentication": 407, "norule": 421, "accepted": 204}},
+]
+CLIENT_UP_VALUES = ["mallory", "1", "a, b", "", "x y", "%41"]
 LITERALS = ["", "a", "b", "ab", "abc", "GET", "POST", "http", "https", "a b", "a/b", "1", "abc", "q", "a%2Fb", "v1",
             "a.example.com", "/a/b", "a=b", "x", "zz"]
 
@@ -174,7 +189,13 @@ def gen_pipe(rng, cap_names, hdr_names, ck_names, req, dup_p):
             p = gen_probe(rng, cap_names, hdr_names, ck_names, cel=True)
             cond = {"p": p, "eq": ascii_lit(guess(rng, p, req))}
         fins.append({"t": t, "if": cond, "items": items})
-    return {"authz": authz, "fin": fins}
+    pipe = {"authz": authz, "fin": fins}
+    r = rng.random()
+    if r < 0.05:
+        pipe["deny"] = True          # `unauthorized` authenticator
+    elif r < 0.11:
+        pipe["comm"] = True          # contextualizer with an unreachable endpoint
+    return pipe
 
 
 def gen_cookie_line(rng):
@@ -321,6 +342,16 @@ def gen_case(rng, dup_p=0.12, wellformed=True):
     for r in rules:
         caps = sorted({n for rt in r["routes"] for n in gen_trie.wild_names(rt["path"])})
         r["pipe"] = gen_pipe(rng, caps, hdr_names, ck_names, req, dup_p)
+    # the client itself sends headers the pipeline sets for the upstream (same or another spelling, several lines)
+    if rng.random() < 0.3:
+        set_names = [it["name"] for r in rules for f in r["pipe"]["fin"] if f["t"] == "header" for it in f["items"]]
+        for _ in range(rng.choice([1, 1, 2])):
+            n = rng.choice(set_names) if set_names and rng.random() < 0.75 else rng.choice(UP_HEADERS)
+            n = rng.choice([n, n.lower(), n.upper(), canon(n)])
+            pos = rng.randrange(len(req["headers"]) + 1)
+            if req["body"] is not None:
+                pos = min(pos, len(req["headers"]) - 1)      # Content-Length stays the last line
+            req["headers"].insert(max(pos, 0), [n, rng.choice(CLIENT_UP_VALUES)])
     # one rule set, sometimes two with disjoint path expressions (a tree node holds rules of one rule set only)
     sets = [{"src": "s1", "rules": rules}]
     if len(rules) > 1 and rng.random() < 0.3:
@@ -336,6 +367,7 @@ def gen_case(rng, dup_p=0.12, wellformed=True):
                     "cookies": sorted(set(rng.sample(ck_names, 3)))}}
     if rng.random() < 0.25:
         case["default"] = {"pipe": gen_pipe(rng, [], hdr_names, ck_names, req, dup_p)}
+    case["respond"] = rng.choice(RESPONDS)
     return case
 
 
